@@ -552,8 +552,8 @@ pub fn run(tier: &str, seed: u64) -> i32 {
     let thorough = tier == "thorough";
     let mut report = Report::new("C15", tier, seed, "model_checking");
     let (n_all, n_nested) = if thorough { (10, 14) } else { (8, 11) };
-    report.add(family_all(n_all, Duration::from_secs(if thorough { 1500 } else { 45 })));
-    report.add(family_nested(n_nested, Duration::from_secs(if thorough { 900 } else { 30 })));
+    report.add(family_all(n_all, Duration::from_secs(if thorough { 1500 } else { 150 })));
+    report.add(family_nested(n_nested, Duration::from_secs(if thorough { 900 } else { 150 })));
     if thorough {
         report.add(family_macro(2, &[0, 1, 29, 30, 31, 32, 33], true, Duration::from_secs(600)));
         report.add(family_macro(3, &[0, 1, 30, 31, 32], false, Duration::from_secs(900)));
